@@ -79,6 +79,10 @@ theorem utilStrategy_query_pure (util : κ → ι) (M : Mgr σ ι) (h : PureQ M)
 theorem densityStrategy_query_pure (keepAll : Bool) (M : Mgr σ (Option ι)) : PureQ (densityStrategy keepAll M) :=
   fun _ _ => rfl
 
+/-- the same for `CognitiveDualQueryStrategy` (it shares `query` with the density strategy model) -/
+theorem cognitiveStrategy_query_pure (ffb : Bool) (M : Mgr σ (Option ι)) : PureQ (cognitiveStrategy ffb M) :=
+  fun _ _ => rfl
+
 /-- **Repeated calls with the same arguments return the same indices.** -/
 theorem repeated_query_same (M : Mgr σ ι) (h : PureQ M) (s : σ) (xs : List ι) :
     (M.query (M.query s xs).2 xs).1 = (M.query s xs).1 := by
